@@ -24,4 +24,6 @@ def build():
     for m in CONTRACT_MODULES:
         mod = importlib.import_module('contracts.' + m)
         mod.register(reg, stubs, world)
+        if hasattr(mod, 'register_chain'):
+            mod.register_chain(reg, stubs, world)
     return world, reg, stubs
